@@ -40,6 +40,7 @@ def step_queries(quick):
             qs.append(stepq("h_result_worker", rqn, idlen, 1, witness=(rqn == 2 and idlen == 0)))
         qs.append(stepq("h_pool_destroy", 0, rqn, 1, witness=(rqn == 2)))
     qs.append(stepq("h_handler_lifecycle", 0, 0, 1))
+    qs.append(stepq("h_public_wrappers", 0, 0, 1))
     return qs
 
 
@@ -66,7 +67,7 @@ def build(tier, seed):
     meta = {
         "functions": wc.FUNCS + sc.FUNCS + ["_compress_block_wrapper", "_write_data_block_wrapper", "_write_temp_file_wrapper", "_collect_readers_cb",
                                             "threadpool_next", "threadpool_dispatch", "thread_worker", "resultq_init", "resultq_next", "resultq_finish", "resultq_destroy",
-                                            "result_worker", "result_handler_init", "result_handler_destroy", "threadpool_destroy"],
+                                            "result_worker", "result_handler_init", "result_handler_destroy", "threadpool_destroy", "threadpool_init", "mtbl_threadpool_init", "mtbl_threadpool_destroy"],
         "units": ["mtbl/writer.c", "mtbl/sorter.c", "mtbl/threadpool.c"],
         "bounds": "LAYER B: each threadpool.c protocol step run once, sequentially, from every pre-state with a result queue of 0..2 threads and an idle list of 0..2 threads (0..3 each in the thorough tier) that satisfies the invariant (queue is a NULL-terminated list whose tail pointer addresses the last link; idle threads have empty mailboxes; count <= max), pool->max 1..10 and the slack of count/nthreads (0..2) symbolic; post-state must satisfy the invariant + the step's contract (job handed over, queued at the tail iff ordered, one result out per dequeue in queue order, thread returned to the idle list, waits exactly when the enabling condition is false, no thread created at count == max, destroy/join return). A condition wait = release the mutex, record it, let the environment make the awaited condition true once, re-acquire; waiting a second time or waiting when enabled is a violation; join = the joined thread's function runs to completion. LAYER A: writer.c and sorter.c against the thread pool's documented contract (job then result callback, each exactly once, at once / at the next pool call / only when the handler is joined -- three enumerated schedules; ordered delivery for the writer, any order for the sorter); files of <= 6 entries with 1..4 blocks, sorters of <= 4 adds and <= 4 chunks; the produced file is judged by the same independent decoder as without a pool (same entries, offsets, counters)",
         "outside": "interleavings INSIDE a step and true concurrency: two threads inside threadpool.c at once, lost wake-ups (signal before wait), spurious wake-ups, unlocked reads of thread fields (thread_worker reads me->cb without the mutex), data races -- i.e. the property's quantifier over real thread schedules is covered only as far as each step is atomic with respect to the locks it takes. CBMC 6.11 refuses threaded encodings of the unit ('pointer handling for concurrency is unsound'), a sequentialised scheduler harness did not finish (attic/), no other concurrency engine is installed; stated in DESIGN.md. Queues/idle lists longer than 2. Jobs run in dispatch order in the model (the real pool may run them concurrently; they touch disjoint blocks)",
